@@ -35,6 +35,7 @@ thread_local! {
     static INSTRUCTIONS: Cell<u64> = const { Cell::new(0) };
     static RUN_DEPTH: Cell<u32> = const { Cell::new(0) };
     static MAX_RUN_DEPTH: Cell<u32> = const { Cell::new(0) };
+    static RUNS_ENTERED: Cell<u64> = const { Cell::new(0) };
     static FUEL: Cell<Option<u64>> = const { Cell::new(None) };
     static FUEL_EXHAUSTED: Cell<bool> = const { Cell::new(false) };
 }
@@ -131,6 +132,7 @@ pub struct RunDepthGuard;
 
 #[inline]
 pub fn enter_run() -> RunDepthGuard {
+    RUNS_ENTERED.with(|c| c.set(c.get() + 1));
     RUN_DEPTH.with(|d| {
         let v = d.get() + 1;
         d.set(v);
@@ -174,6 +176,8 @@ pub struct Counters {
     pub instructions: u64,
     pub run_depth: u32,
     pub max_run_depth: u32,
+    /// number of `BytecodeVM::run` calls entered so far (natives re-entering the VM)
+    pub runs_entered: u64,
 }
 
 pub fn counters() -> Counters {
@@ -188,6 +192,7 @@ pub fn counters() -> Counters {
         instructions: INSTRUCTIONS.with(|c| c.get()),
         run_depth: RUN_DEPTH.with(|c| c.get()),
         max_run_depth: MAX_RUN_DEPTH.with(|c| c.get()),
+        runs_entered: RUNS_ENTERED.with(|c| c.get()),
     }
 }
 
@@ -204,6 +209,7 @@ pub fn reset() {
     INSTRUCTIONS.with(|c| c.set(0));
     RUN_DEPTH.with(|c| c.set(0));
     MAX_RUN_DEPTH.with(|c| c.set(0));
+    RUNS_ENTERED.with(|c| c.set(0));
     STALE.with(|s| s.borrow_mut().clear());
     set_fuel(None);
 }
@@ -214,6 +220,10 @@ pub fn instructions() -> u64 {
 
 pub fn allocs() -> u64 {
     ALLOCS.with(|c| c.get())
+}
+
+pub fn runs_entered() -> u64 {
+    RUNS_ENTERED.with(|c| c.get())
 }
 
 pub fn run_depth() -> u32 {
